@@ -498,6 +498,11 @@ class AlignmentCollector:
             max_cov = coverage_dict[current_start]
             pos = min(current_start + 1, coverage_positions[-1] + 1)
 
+        # the loop stops once the last bin is reached: emit whatever part of the region is still not covered
+        last_covered = split_regions[-1][1] if split_regions else genomic_region[0] - 1
+        if last_covered < genomic_region[1]:
+            split_regions.append((last_covered + 1, genomic_region[1]))
+
         return split_regions
 
     @staticmethod
